@@ -36,3 +36,22 @@ Theorem C07_restart_releases_only_confirmed : forall code,
   recover_after_poll code = QFinishAndPlaceholder -> code = POLL_WAITING \/ code = POLL_PASSED.
 Proof. exact recover_poll_never_releases_on_negative. Qed.
 Print Assumptions C07_restart_releases_only_confirmed.
+
+(* ---- the persisted queue cache (cache/local.go): what a restarted sender starts from ---- *)
+From STS Require Import Model.Cache Proofs.CacheP.
+
+(* after any history of cache operations (adds, confirmations, resets, removals, writes,
+   earlier restarts): writing the cache and restarting loses nothing - every entry with
+   every field, the store's private data included *)
+Theorem C07_persisted_cache_is_what_restart_finds : forall ops,
+  let c := crun empty_cache ops in
+  c_mem (crestart (cpersist c)) = c_mem c.
+Proof. exact persist_then_restart_loses_nothing. Qed.
+Print Assumptions C07_persisted_cache_is_what_restart_finds.
+
+(* a crash between two writes: the file on disk is the one written last, whatever
+   happened in memory since *)
+Theorem C07_cache_file_changes_only_when_written : forall c op,
+  op <> CPersist -> c_disk (cstep c op) = c_disk c.
+Proof. exact disk_changes_only_on_persist. Qed.
+Print Assumptions C07_cache_file_changes_only_when_written.
